@@ -181,6 +181,14 @@ func TestC37_NoTwoSuccessors(t *testing.T) {
 			}
 		}
 		schedule := genSchedule(t, nw)
+		// a third of the cases: one writer's commit fails at a drawn call of its phase 1 end / phase 2 (the finalising
+		// registry write, the priority log, the store info update): its rollback must put back exactly what it replaced
+		faultTxn, faultSite := -1, ""
+		if rapid.IntRange(0, 2).Draw(t, "withFault") == 0 {
+			faultTxn = rapid.IntRange(0, nw-1).Draw(t, "faultTxn")
+			faultSite = rapid.SampledFrom([]string{"Registry.UpdateNoLocksFlip", "Registry.UpdateNoLocksFlip", "PLog.Add", "StoreRepository.Update", "BlobStore.Add", "Registry.UpdateNoLocks"}).Draw(t, "faultSite")
+		}
+		faulted := false
 		e, err := txh.NewEnv(rapid.SampledFrom([]int{1, 3}).Draw(t, "hashMod"))
 		if err != nil {
 			t.Fatalf("%v", err)
@@ -200,9 +208,16 @@ func TestC37_NoTwoSuccessors(t *testing.T) {
 			}
 		}
 		e.OnRegistry = m.onEvent
-		res, s := e.RunConcurrent(stores, progs, schedule, txh.ConcOpts{GateCommits: knownSnapshot, MaxTime: 6 * time.Second, Budget: 60 * time.Second})
+		res, s := e.RunConcurrent(stores, progs, schedule, txh.ConcOpts{GateCommits: knownSnapshot, MaxTime: 6 * time.Second, Budget: 60 * time.Second,
+			Fault: func(i int, st txh.Site) txh.Action {
+				if i == faultTxn && !faulted && st.K == 0 && st.Comp+"."+st.Method == faultSite {
+					faulted = true
+					return txh.Action{Err: txh.ErrInjected}
+				}
+				return txh.Action{}
+			}})
 		e.OnRegistry = nil
-		desc := fmt.Sprintf("slot=%d %s seed=%v %s schedule=%s", slot, txh.PlacementNames[stores[0].Placement], seed, renderProgs(progs), renderSched(schedule))
+		desc := fmt.Sprintf("slot=%d %s seed=%v %s schedule=%s fault=p%d@%s(fired=%v)", slot, txh.PlacementNames[stores[0].Placement], seed, renderProgs(progs), renderSched(schedule), faultTxn, faultSite, faulted)
 		if s.TimedOut {
 			rec.Discard()
 			return
@@ -243,7 +258,10 @@ func TestC37_NoTwoSuccessors(t *testing.T) {
 		if m.flips > 0 {
 			labels = append(labels, "flips")
 		}
-		rec.Case(desc, contended, labels...)
+		if faulted {
+			labels = append(labels, "commitFailedAt:"+faultSite)
+		}
+		rec.Case(desc, contended || faulted, labels...)
 		tr := m.trace
 		if len(tr) > 25 {
 			tr = tr[:25]
